@@ -4,9 +4,11 @@ package main
 
 import (
 	"fmt"
+	"reflect"
 	"sort"
 	"strings"
 	"testing"
+	"unsafe"
 
 	"github.com/sourcegraph/zoekt/internal/verifshim/mc"
 )
@@ -28,6 +30,29 @@ type c31call struct {
 	returned    bool
 	ret         bool
 	overlap     map[int]bool // ids of same-name calls in flight during this call
+}
+
+// c31RunningLen reads the size of indexMutex's bookkeeping of running repositories whatever its
+// representation (map, sync.Map-like with Range); -1 if there is no such field. It is only a
+// refinement of the state key and a white-box quiescence check; the behavioural checks do not need it.
+func c31RunningLen(m *indexMutex) int {
+	v := reflect.ValueOf(m).Elem().FieldByName("running")
+	if !v.IsValid() {
+		return -1
+	}
+	switch v.Kind() {
+	case reflect.Map, reflect.Slice:
+		return v.Len()
+	}
+	if !v.CanAddr() {
+		return -1
+	}
+	if r, ok := reflect.NewAt(v.Type(), unsafe.Pointer(v.UnsafeAddr())).Interface().(interface{ Range(func(k, v any) bool) }); ok {
+		n := 0
+		r.Range(func(k, v any) bool { n++; return true })
+		return n
+	}
+	return -1
 }
 
 func c31name(kind string) string { return strings.TrimPrefix(kind, "W") }
@@ -101,7 +126,7 @@ func c31Scenario(progs [][]string) *mc.SchedConfig {
 			sort.Ints(ov)
 			fmt.Fprintf(&sb, "%v%v%v%v%v%v;", c.inCall, c.inF, c.ran, c.returned, c.ret, ov)
 		}
-		fmt.Fprintf(&sb, "running=%d viol=%d", len(w.m.running), len(e.Violations()))
+		fmt.Fprintf(&sb, "running=%d viol=%d", c31RunningLen(w.m), len(e.Violations()))
 		return sb.String()
 	}
 	cfg.Check = func(e *mc.Exec) {
@@ -122,8 +147,27 @@ func c31Scenario(progs [][]string) *mc.SchedConfig {
 				}
 			}
 		}
-		if len(w.m.running) != 0 {
-			e.Fail("running set not empty at quiescence: %v", w.m.running)
+		if n := c31RunningLen(w.m); n > 0 {
+			e.Fail("running set not empty at quiescence: %d entries", n)
+		}
+		// the same, observed through the interface only: at quiescence every repository and the
+		// global section can be entered again
+		names := map[string]bool{}
+		for _, c := range w.calls {
+			if c.kind != "G" {
+				names[c31name(c.kind)] = true
+			}
+		}
+		for n := range names {
+			ran := false
+			if ok := w.m.With(n, func() { ran = true }); !ok || !ran {
+				e.Fail("at quiescence With(%s) is still refused (returned %v, ran %v): a finished operation left the repository marked as running", n, ok, ran)
+			}
+		}
+		gran := false
+		w.m.Global(func() { gran = true })
+		if !gran {
+			e.Fail("at quiescence Global did not run its function")
 		}
 	}
 	return cfg
